@@ -1034,6 +1034,262 @@ def toyaml_stream(run, n):
             run.disagree(case, {'harness_dumpable': L.yaml_dumpable(real['ok'])}, real, 'yaml representability')
 
 
+# --------------------------------------------------------------------------- (d) statistics stream
+
+class _FakeTime:
+    """stands in for the `time` module inside pywbem._statistics: the clock is set by the harness"""
+    now = 0.0
+
+    @classmethod
+    def time(cls):
+        return cls.now
+
+
+def gen_stats_ops(rng):
+    ops = []
+    n_handles = 0
+    t = rng.choice([0, 0, 1, 100])
+    for _ in range(rng.randint(1, 25)):
+        x = rng.random()
+        t += rng.choice([0, 1, 1, 2, 5, 17, 1000, -3])
+        if x < 0.36 or n_handles == 0 and x < 0.7:
+            ops.append({'o': 'start', 'n': cps(rng.choice(['A', 'A', 'B', 'Cé'])), 't': str(t)})
+            n_handles += 1
+        elif x < 0.80 and n_handles:
+            # mostly the most recent handles (properly nested use), sometimes any / already used ones
+            idx = n_handles - 1 - rng.choice([0, 0, 0, 1, 2]) if rng.random() < 0.75 else rng.randrange(n_handles)
+            ops.append({'o': 'stop', 'i': max(idx, 0), 't': str(t),
+                        'rq': rng.choice([None, 0, 5, 100, 100, 2 ** 40]), 'rp': rng.choice([None, 0, 7, 3000]),
+                        'sv': rng.choice([None, 0, 3, 3, 50, -1]), 'e': rng.random() < 0.3})
+        elif x < 0.86:
+            ops.append({'o': 'reset'})
+        elif x < 0.94:
+            ops.append({'o': 'enable'})
+        else:
+            ops.append({'o': 'disable'})
+    if rng.random() < 0.8:
+        ops.insert(0, {'o': 'enable'})
+    return ops
+
+
+def _num(x):
+    if x is None:
+        return None
+    if x == float('inf'):
+        return None
+    return str(int(x))
+
+
+def real_stats_run(ops):
+    import pywbem
+    from pywbem import _statistics
+    old = _statistics.time
+    _statistics.time = _FakeTime
+    try:
+        st = pywbem.Statistics()
+        handles, outs, gens = [], [], 0
+        for op in ops:
+            if 't' in op:
+                _FakeTime.now = float(int(op['t']))
+            if op['o'] == 'start':
+                name = common.from_cps(op['n'])
+                h = st.start_timer(name)
+                handles.append(h)
+                outs.append({'h': 'dummy'} if h is st._disabled_stats else {'h': op['n'], 'g': gens})
+            elif op['o'] == 'stop':
+                if op['i'] >= len(handles):
+                    outs.append({'ok': None})
+                    continue
+                f = (lambda v: None if v is None else float(v))
+                try:
+                    r = handles[op['i']].stop_timer(op['rq'], op['rp'], f(op['sv']), op['e'])
+                    outs.append({'stop': _num(r)})
+                except RuntimeError:
+                    outs.append({'exc': 'RuntimeError'})
+            elif op['o'] == 'reset':
+                ok = st.reset()
+                gens += 1 if ok else 0
+                outs.append({'reset': ok})
+            elif op['o'] == 'enable':
+                st.enable()
+                outs.append({'ok': None})
+            else:
+                st.disable()
+                outs.append({'ok': None})
+        stats = []
+        consistent = True
+        for n, o in st._op_stats.items():
+            stats.append({'n': cps(n), 'count': o.count, 'exc': o.exception_count,
+                          'tsum': _num(o._time_sum), 'tmin': _num(o.min_time), 'tmax': _num(o.max_time),
+                          'susp': bool(o._server_time_suspended), 'ssum': _num(o._server_time_sum),
+                          'smin': _num(o.min_server_time), 'smax': _num(o.max_server_time),
+                          'qsum': _num(o._request_len_sum), 'qmin': _num(o.min_request_len), 'qmax': _num(o.max_request_len),
+                          'psum': _num(o._reply_len_sum), 'pmin': _num(o.min_reply_len), 'pmax': _num(o.max_reply_len),
+                          'start': _num(o._start_time), 'first': _num(o._stat_start_time)})
+            if o.count:
+                consistent = consistent and o.avg_time == o._time_sum / o.count and \
+                    o.avg_request_len == o._request_len_sum / o.count and o.avg_reply_len == o._reply_len_sum / o.count \
+                    and o.avg_server_time == o._server_time_sum / o.count
+            else:
+                consistent = consistent and o.avg_time == 0 and o.avg_request_len == 0
+        return {'outs': outs, 'enabled': st.enabled, 'stats': stats}, consistent
+    finally:
+        _statistics.time = old
+
+
+def stats_stream(run, n):
+    rng = run.rng
+    items = [gen_stats_ops(rng) for _ in range(n)]
+    answers = common.run_driver(PROP, [{'op': 'stats', 'ops': ops} for ops in items])
+    for ops, a in zip(items, answers):
+        real, consistent = real_stats_run(ops)
+        case = {'stream': 'stats', 'ops': ops}
+        stopped = sum(1 for o in real['outs'] if o.get('stop') is not None)
+        run.case(case, nontrivial=stopped > 0)
+        run.count('stats:stops-measured', stopped)
+        run.count('stats:runtime-errors', sum(1 for o in real['outs'] if 'exc' in o))
+        run.count('stats:resets-refused', sum(1 for o in real['outs'] if o.get('reset') is False))
+        if a != real:
+            run.disagree(case, a, real, 'statistics arithmetic')
+        if not consistent:
+            run.disagree(case, {'avg': 'sum/count'}, {'avg': 'differs'}, 'statistics avg_* properties')
+
+
+# --------------------------------------------------------------------------- (e) configure_logger stream
+
+def gen_logcfg(rng):
+    calls = []
+    for _ in range(rng.randint(1, 5)):
+        calls.append({
+            'name': rng.choice(['api', 'http', 'all', 'all', 'api', 'xyz', '']),
+            'dest': rng.choice([None, None, 'stderr', 'file', 'file', 'off', 'syslog']),
+            'detail': rng.choice([None, 'all', 'paths', 'summary', 'Summary', 'foo', 0, 1, 10, 5000, -1, -7,
+                                  {'other': 1.5}, {'other': [1]}]),
+            'filename': rng.random() < 0.75,
+            'conn': rng.choice([None, True, True, False, 'conn', 'conn', 'conn']),
+            'propagate': rng.random() < 0.4})
+    return {'parentDebug': rng.random() < 0.3,
+            'userHandlers': {'api': rng.choice([0, 0, 0, 1, 2, 3]), 'http': rng.choice([0, 0, 1, 2, 4])},
+            'tcr': rng.random() < 0.3, 'creds': rng.choice(['tuple', 'namedtuple', 'none']), 'calls': calls}
+
+
+def _logger_state(name):
+    lg = logging.getLogger(name)
+    kinds = []
+    for h in lg.handlers:
+        kinds.append('file' if isinstance(h, logging.FileHandler) else
+                     'stderr' if type(h) is logging.StreamHandler else 'user')
+    level = {logging.NOTSET: 'notset', logging.DEBUG: 'debug', logging.ERROR: 'error'}.get(lg.level, str(lg.level))
+    return {'handlers': kinds, 'level': level, 'propagate': bool(lg.propagate)}
+
+
+def _recorders_state(conn):
+    from pywbem._recorder import LogOperationRecorder
+    out = []
+    for r in conn._operation_recorders:
+        if isinstance(r, LogOperationRecorder):
+            out.append({'kind': 'log', 'api': r.api_detail_level, 'http': r.http_detail_level,
+                        'apiMax': r.api_maxlen, 'httpMax': r.http_maxlen,
+                        'apiOn': r.apilogger.isEnabledFor(logging.DEBUG),
+                        'httpOn': r.httpLogger.isEnabledFor(logging.DEBUG) if hasattr(r, 'httpLogger')
+                        else r.httplogger.isEnabledFor(logging.DEBUG), 'enabled': r.enabled})
+        else:
+            out.append({'kind': 'tcr', 'enabled': r.enabled})
+    return out
+
+
+def real_logcfg(item):
+    import pywbem
+    from pywbem._recorder import TestClientRecorder
+    reset_logging()
+    cap = Capture()
+    sink = io.StringIO()
+    old_stderr = sys.stderr
+    sys.stderr = sink
+    tmpdir = tempfile.mkdtemp(prefix='c19cfg-')
+    logfile = os.path.join(tmpdir, 'x.log')
+    try:
+        if item['parentDebug']:
+            logging.getLogger('pywbem').setLevel(logging.DEBUG)
+        for nm in ('api', 'http'):
+            for _ in range(item['userHandlers'][nm]):
+                logging.getLogger('pywbem.' + nm).addHandler(logging.NullHandler())
+        conn = pywbem.WBEMConnection(URL, creds_of(item['creds']))
+        if item['tcr']:
+            conn.add_operation_recorder(TestClientRecorder(io.StringIO()))
+
+        def state():
+            return {'apiLogger': _logger_state('pywbem.api'), 'httpLogger': _logger_state('pywbem.http'),
+                    'activate': bool(pywbem.WBEMConnection._activate_logging),
+                    'apiDetail': pywbem.WBEMConnection._log_detail_levels.get('api'),
+                    'httpDetail': pywbem.WBEMConnection._log_detail_levels.get('http'),
+                    'recorders': _recorders_state(conn)}
+        outs = []
+        for c in item['calls']:
+            detail = c['detail']
+            if isinstance(detail, dict):
+                detail = detail['other']
+                detail = tuple(detail) if isinstance(detail, list) else detail
+            exc = None
+            try:
+                pywbem.configure_logger(c['name'], log_dest=c['dest'], detail_level=detail,
+                                        log_filename=logfile if c['filename'] else None,
+                                        connection=conn if c['conn'] == 'conn' else c['conn'], propagate=c['propagate'])
+            except Exception as e:  # noqa
+                exc = type(e).__name__
+            evs = [record_event(r) for r in cap.records]
+            del cap.records[:]
+            outs.append({'exc': exc, 'events': evs, 'state': state()})
+        final = state()
+        conn2 = pywbem.WBEMConnection(URL, creds_of(item['creds']))
+        new = {'recorders': _recorders_state(conn2), 'events': [{'log': record_event(r)['log'], 'kind': record_event(r)['kind']}
+                                                                  for r in cap.records]}
+        return {'calls': outs, 'newConn': new, 'final': final}, str(conn), repr(conn)
+    finally:
+        cap.close()
+        sys.stderr = old_stderr
+        logging.shutdown()
+        reset_logging()
+        try:
+            if os.path.exists(logfile):
+                os.unlink(logfile)
+            os.rmdir(tmpdir)
+        except OSError:
+            pass
+
+
+def logcfg_stream(run, n):
+    rng = run.rng
+    items = [gen_logcfg(rng) for _ in range(n)]
+    reals, reqs = [], []
+    for item in items:
+        real, s_, r_ = real_logcfg(item)
+        ct = creds_text(item['creds'])
+        sp, rp = split_around(s_, 'creds=' + ct), split_around(r_, 'creds=' + ct)
+        at_add = ['TestClientRecorder', 'LogOperationRecorder'] if item['tcr'] else ['LogOperationRecorder']
+        rpost = re.sub(r"recorders=\[[^\]]*\]\)$", 'recorders=%s)' % L.afmt(at_add).replace('\\', '\\\\'), rp[1])
+        conn = {'creds': {'kind': 'tuple' if item['creds'] in TUPLE_CREDS else item['creds'],
+                          'user': cps(L.afmt(L.USER)), 'pw': cps(L.afmt(L.PASSWORD))},
+                'strPre': cps(sp[0] + 'creds='), 'strPost': cps(sp[1]), 'reprPre': cps(rp[0] + 'creds='),
+                'reprPost': cps(rpost), 'stats': False}
+        calls = [dict(c, detail=cps(c['detail']) if isinstance(c['detail'], str) else c['detail']) for c in item['calls']]
+        reqs.append({'op': 'logcfg', 'parentDebug': item['parentDebug'], 'userHandlers': item['userHandlers'],
+                     'tcr': item['tcr'], 'conn': conn, 'calls': calls})
+        reals.append(real)
+    answers = common.run_driver(PROP, reqs)
+    for item, real, a in zip(items, reals, answers):
+        case = {'stream': 'logcfg', 'item': item}
+        run.case(case, nontrivial=any(o['exc'] is None for o in real['calls']))
+        for o in real['calls']:
+            run.count('logcfg:' + (o['exc'] or 'ok'))
+        # the model keeps the Connection text of the new connection under the first connection's id: compare kinds only
+        am = json.loads(json.dumps(a))
+        if 'newConn' in am:
+            am['newConn']['events'] = [{'log': e.get('log'), 'kind': e.get('kind')} for e in am['newConn'].get('events', [])]
+        if am != real:
+            run.disagree(case, am, real, 'configure_logger')
+
+
 # --------------------------------------------------------------------------- entry points
 
 def case_key(case):
@@ -1089,7 +1345,7 @@ def run(run):
     run.rule = ('(a) byte strings: random + truncations of valid UTF-8 at every point + all 1-byte and boundary 2/3-byte '
                 'strings, compared with bytes.decode strict and errors=replace, str.encode; (b) values from the shared CIM '
                 'object generator and Python scalars/containers/foreign types, compared with TestClientRecorder.toyaml and '
-                'yaml.dump representability; (c) cases = observer configuration (configure_logger api|http|all x '
+                'yaml.dump representability; (d) histories of the low-level statistics API (start_timer/stop_timer on any handle handed out, reset, enable, disable; fake clock, lengths, server times) compared counter by counter; (e) sequences of configure_logger calls (valid and invalid names, destinations, detail levels, missing file name, connection = None|True|False|connection, pre-attached handlers) compared on exception class, logger handlers/level/propagate, class-level activation and detail levels, the recorders of the connection and their Connection records, and the recorder of a connection created afterwards; (c) cases = observer configuration (configure_logger api|http|all x '
                 'dest file|stderr|user-configured|None x detail all|paths|summary|None|int near payload boundaries and '
                 'inside multi-byte characters, before/after connection creation, repeated; TestClientRecorder on/off/'
                 'disabled, recorder order; stats; debug; creds plain tuple|namedtuple|other tuple subclass|list|none) x 1..3 calls of 24 operations (incl. OpenQueryInstances/PullInstances whose instances have no path, optional QueryResultClass) with '
@@ -1104,6 +1360,8 @@ def run(run):
     ]
     utf8_stream(run, n_utf)
     toyaml_stream(run, n_val)
+    stats_stream(run, 12000 if run.thorough else 1500)
+    logcfg_stream(run, 4000 if run.thorough else 500)
     cases = [gen_case(rng, run.thorough) for _ in range(n_ops)]
     run_cases(run, cases)
 
